@@ -201,9 +201,22 @@ impl TraceHandler {
             .map(|fold_fsm| fold_fsm.verif_unclaimed_lore())
     }
 
-    /// Verification hook: the unclaimed fold lore split by cause (not iterated / no position in the new trace).
+    /// Verification hook: are the next states of the previous and of the current data calls recorded
+    /// as sent (`RequestSentBy`); nothing is consumed.
     #[cfg(aquavm_verif)]
-    pub fn verif_unclaimed_fold_lore_by_cause(&mut self, fold_id: u32) -> Option<[(usize, u64); 2]> {
+    pub fn verif_next_states_are_sent_calls(&self) -> (bool, bool) {
+        use air_interpreter_data::CallResult;
+        use air_interpreter_data::ExecutedState;
+        let sent = |state: Option<&ExecutedState>| matches!(state, Some(ExecutedState::Call(CallResult::RequestSentBy(_))));
+        (
+            sent(self.data_keeper.prev_ctx.slider.verif_peek()),
+            sent(self.data_keeper.current_ctx.slider.verif_peek()),
+        )
+    }
+
+    /// Verification hook: the unclaimed fold lore split by cause (not iterated / not replayed yet / mapping lost).
+    #[cfg(aquavm_verif)]
+    pub fn verif_unclaimed_fold_lore_by_cause(&mut self, fold_id: u32) -> Option<[(usize, u64); 3]> {
         let data_keeper = &self.data_keeper;
         self.fsm_keeper
             .fold_mut(fold_id)
